@@ -130,8 +130,9 @@ Choices ==
   IF Family = "sandbox" /\ prev # <<>>
   THEN (IF Len(h) = 0 THEN LaterMenu
         \* Rich = 2: a second action (no process start) where one thing changed between the configurations
-        ELSE IF Rich = 2 /\ Len(h) = 1 /\ ~IsExec(h[1]) /\ NDiff(prev[Len(prev)].cfg, cfg) = 1
-        THEN {a \in LaterMenu : ~IsExec(a)} ELSE {})
+        \* (not with the representatives of the newer name dimensions: they are paired within one run, see below)
+        ELSE IF Rich = 2 /\ Len(h) = 1 /\ ~IsExec(h[1]) /\ h[1] \notin NewPair /\ NDiff(prev[Len(prev)].cfg, cfg) = 1
+        THEN {a \in LaterMenu : ~IsExec(a) /\ a \notin NewPair} ELSE {})
   ELSE IF Family = "sandbox"
   THEN CASE Len(h) = 0 -> SandboxMenu({"lit", "computed"}) \cup Menu(GFiles, {"lit"}, {"printf"})   \* printf is an opcode of its own
                           \cup NewSingles
